@@ -168,3 +168,27 @@ func M_regexp_SplitSpaces(s string) []string {
 	}
 	return append(out, s[beg:])
 }
+
+// M_Replacer_Replace models (*strings.Replacer).Replace for a replacer built from the given
+// old/new pairs: replacements are performed in the order they appear in the target string,
+// without overlapping matches; old strings are compared in argument order.
+func M_Replacer_Replace(pairs []string, s string) string {
+	out := []byte{}
+	for i := 0; i < len(s); {
+		matched := false
+		for p := 0; p+1 < len(pairs); p += 2 {
+			old := pairs[p]
+			if len(old) > 0 && i+len(old) <= len(s) && s[i:i+len(old)] == old {
+				out = append(out, pairs[p+1]...)
+				i += len(old)
+				matched = true
+				break
+			}
+		}
+		if !matched {
+			out = append(out, s[i])
+			i++
+		}
+	}
+	return string(out)
+}
